@@ -35,9 +35,9 @@ def gen_cases(tier, seed):
              {'nx': 4, 'ny': 3, 'mi_x': [0.25, 0.5], 'mi_y': [], 'tuple_mi': True, 'log': False}]
     k = 0
 
-    def add(grid, procs, kill=None, fail=None):
+    def add(grid, procs, kill=None, fail=None, second=None):
         nonlocal k
-        cases.append({'grid': grid, 'procs': procs, 'kill': kill, 'fail': fail or [], 'id': k})
+        cases.append({'grid': grid, 'procs': procs, 'kill': kill, 'fail': fail or [], 'second': second, 'id': k})
         k += 1
     for gi, g in enumerate(grids):
         add(g, 4)                                            # no fault: reference + plain restart of a completed study
@@ -56,6 +56,11 @@ def gen_cases(tier, seed):
         for fail in ([0], [3, 4, 5], [1, 6, 11]):
             add(g, 4, fail=fail)
         add(grids[1], 8, fail=[2, 7])
+        # three-run histories: cases fail (or the study is killed) in run 1, some complete in an interrupted run 2, run 3 finishes the study
+        add(g, 4, fail=[2, 7], second={'fail': [7]})
+        add(g, 4, fail=[0, 5, 11], second={'kill': '5:2'})
+        add(grids[3], 8, kill='6:3', second={'fail': [1, 9]})
+        add(grids[2], 8, fail=[3], second={'kill': 'worker-log:2'})
     else:
         for gi, g in enumerate(grids):
             ncase = (g['nx'] + len(g['mi_x'])) * (g['ny'] + len(g['mi_y']))
@@ -72,6 +77,12 @@ def gen_cases(tier, seed):
             for _ in range(8):
                 nf = int(rng.integers(1, 5))
                 add(g, int(rng.choice([4, 8, 16])), fail=sorted(int(x) for x in rng.choice(ncase, nf, replace=False)))
+            for _ in range(10):
+                f1 = sorted(int(x) for x in rng.choice(ncase, int(rng.integers(2, 5)), replace=False))
+                if rng.random() < 0.5:
+                    add(g, int(rng.choice([4, 8])), fail=f1, second={'fail': f1[:int(rng.integers(1, len(f1)))]})
+                else:
+                    add(g, int(rng.choice([4, 8])), fail=f1, second={'kill': f'{f1[0]}:{int(rng.integers(1, 5))}'})
     return cases
 
 
@@ -168,6 +179,28 @@ def eval_case(c):
                     if os.path.isfile(os.path.join(study, d, 'mp_success.log')) and os.path.isfile(os.path.join(study, d, 'mp_results.npz')):
                         complete_before.add(n)
         before = exec_counts(journal)
+        # optional second interrupted run (a restart that is itself interrupted): its own bookkeeping must not un-complete earlier cases
+        mid = c.get('second')
+        if mid:
+            specm = dict(spec, mode='restart', kill=mid.get('kill'), fail=mid.get('fail') or [])
+            rcm, outm, errm, tom = run_driver(specm, tmp)
+            cnt['studies_run'] += 1
+            if tom:
+                return {'status': 'inconclusive', 'nontrivial': False, 'violations': [], 'obs': dict(obs, note='second run watchdog'), 'counters': cnt}
+            mid_counts = exec_counts(journal)
+            for n in sorted(complete_before):
+                key = (round(ref[n]['x'], 12), round(ref[n]['y'], 12))
+                if mid_counts.get(key, 0) != before.get(key, 0):
+                    V('completed-case-executed-again', f'case {n} had marker and result file before the second (interrupted) run but was executed again in it')
+                    break
+            if os.path.isdir(study):
+                for d in os.listdir(study):
+                    if '_run_' in d:
+                        n = int(d.split('_run_')[-1])
+                        if os.path.isfile(os.path.join(study, d, 'mp_success.log')) and os.path.isfile(os.path.join(study, d, 'mp_results.npz')):
+                            complete_before.add(n)
+            before = mid_counts
+            obs['second_run_rc'] = rcm
         # restart
         spec2 = dict(spec, mode='restart', kill=None, fail=[])
         rc2, out2, err2, to2 = run_driver(spec2, tmp)
